@@ -166,6 +166,7 @@ CHECKS = {
             R("TestC10Shim", 400, 1500, qs=2),
             E("TestC10ConstructFaults"),
             E("TestC10LongLived", thorough={"shards": 1, "timeout": 600}),
+            E("TestC10LostReplies"),
         ],
     },
     "C11": {
